@@ -1,7 +1,7 @@
 //! Family `honest` (C13): the documented procedure, every instruction built with the crate's own encoders and
 //! account-list builders, random protocol configurations, tree sizes and amounts, and random legal interleavings of up
 //! to three overlapping epochs.  Nothing here is a fault: every transaction is expected to succeed.
-use crate::fam_rd::{bootstrap, Ep, G};
+use crate::fam_rd::{bootstrap_with, Ep, G};
 use crate::ixb::{Leaf, RdSetting};
 use crate::keys::{b, K};
 use crate::rng::Rng;
@@ -13,7 +13,7 @@ use std::pin::Pin;
 pub fn scenario(sim: Sim, rng: Rng, len: usize) -> Pin<Box<dyn Future<Output = Sim>>> { Box::pin(run(sim, rng, len)) }
 
 async fn run(mut s: Sim, mut rng: Rng, _len: usize) -> Sim {
-    let mut g: G = bootstrap(&mut s, &mut rng).await;
+    let mut g: G = bootstrap_with(&mut s, &mut rng, None).await;
     // complete the configuration deterministically (bootstrap deliberately leaves gaps now and then)
     let calc = rng.range(1, 4) as u16; let init = rng.range(1, 4) as u16; let mine = rng.range(1, 2) as u8;
     let r0 = *rng.pick(&[1u32, 50_000_000, 400_000_000, 1_000_000_000]);
